@@ -30,7 +30,7 @@ BOUNDS = {
     "quick": "(a),(b): number parts all reals, numerators/denominators all integers with |.| <= 10^9 (denominators != 0), every operator; (c): number all reals, fractional "
              "part p/q with q in %s and 0 <= p < q (seeded 3 per unit pair), unit pairs: every affine unit <-> base plus 150 seeded pairs, validity with symbolic limits; "
              "(d) auxiliary concrete grid of 294 format/parse and 150 CreateFromFloat cases (NOT solver-decided)" % QS,
-    "thorough": "same with 1500 seeded unit pairs in (c) and every p/q",
+    "thorough": "same with 8000 seeded unit pairs in (c) and every p/q",
 }
 ASSUMPTIONS = ["fractions.Fraction stands in as SymFrac: value term + fresh integer numerator/denominator with D>0 and N = value*D (integrality of the reduced form dropped), so a "
                "proof covers every representation", "A-FP for the number part", "(c): conversions of the fractional part pass through Fraction(float), which snaps numerators with "
@@ -61,7 +61,7 @@ def items(tier, seed):
             if getattr(f, "__a__", 0.0) != 0.0:
                 pairs += [(qt, u, us[0]), (qt, us[0], u)]
     pairs += [("length", "in", "m"), ("length", "in", "ft"), ("length", "m", "in"), ("temperature", "degC", "degF")]
-    pairs += seeded_sample(allp, 150 if tier == "quick" else 1500, seed)
+    pairs += seeded_sample(allp, 150 if tier == "quick" else 8000, seed)
     for qt, u, v in pairs:
         pq = [(p, q) for q in QS for p in range(0, q)]
         for p, q in (rng.sample(pq, 3) if tier == "quick" else rng.sample(pq, 12)):
